@@ -92,7 +92,7 @@ func c09filter(c *Ctx, fn *ssa.Function, dataType string) {
 	if mset != nil {
 		for _, b := range fn.Blocks {
 			for _, in := range b.Instrs {
-				if lk, ok := in.(*ssa.Lookup); ok && !lk.CommaOk && lk.X == mset.Map {
+				if lk, ok := in.(*ssa.Lookup); ok && !lk.CommaOk && sole(lk.X) == sole(mset.Map) {
 					t, _ := cfgx.CondEdges(lk)
 					allow = append(allow, t...)
 					c.R.Check(sameRange(lk.Index, store.Key), load.FuncName(fn)+": allow lookup key", c.pos(lk.Pos()), "the key looked up is the key stored", "the allow-list is consulted with a different key than the one stored")
